@@ -6,7 +6,10 @@ import (
 	"flag"
 	"fmt"
 	"os"
+	"path/filepath"
+	"runtime"
 	"sort"
+	"time"
 
 	"verif/checks"
 	"verif/internal/core"
@@ -56,6 +59,23 @@ func main() {
 	ctx := core.NewCtx(prop, *tier, *seed)
 	ctx.Replay = *replay
 	ctx.Ref = ref
+	// global watchdog: an engine that hangs (or crawls under a flood of race reports) must not hang the check.
+	// Whatever was observed so far is reported; without a violation the run is inconclusive (exit 2).
+	limit := time.Duration(core.EnvInt("VERIF_WATCHDOG_S", map[bool]int64{true: 900, false: 5400}[ctx.Quick()])) * time.Second
+	go func() {
+		time.Sleep(limit)
+		buf := make([]byte, 8<<20)
+		n := runtime.Stack(buf, true)
+		dump := filepath.Join(core.Root(), "tmp", fmt.Sprintf("watchdog.%s.%d.txt", prop, os.Getpid()))
+		_ = os.WriteFile(dump, buf[:n], 0o644)
+		fmt.Printf("WATCHDOG: %s did not finish within %v; goroutine dump in %s\n", prop, limit, dump)
+		ctx.Inconclusive("global watchdog fired")
+		code := ctx.Finish()
+		if code == 0 {
+			code = 2
+		}
+		os.Exit(code)
+	}()
 	c.Run(ctx)
 	os.Exit(ctx.Finish())
 }
